@@ -86,7 +86,8 @@ class RelativeThreshold:
             cand for cand, n_votes in votelib.util.sorted_votes(votes)
             if (
                 Fraction(n_votes, total) > self.threshold
-                or self.accept_equal and n_votes == self.threshold
+                or self.accept_equal
+                and Fraction(n_votes, total) == self.threshold
             )
         ]
 
